@@ -128,6 +128,7 @@ package memfs
 
 //@ type MemFS
 //@   inv[C03,C05] self.user != nil && self.lastId != nil && self.rootNode != nil
+//@   inv[C05,C17] forall n string :: dom(self.volumes, n) ==> self.volumes[n] != nil
 
 // ---- memfs_internal.go: permission checks and creation formulas (C03) --------------------------
 
@@ -186,3 +187,33 @@ package memfs
 //@   requires parent != nil
 //@   ensures[C03] fresh(r0) && r0.mode == fs.ModeSymlink | fs.ModePerm && r0.uid == vfs.user.Uid() && r0.gid == vfs.user.Gid()
 //@   ensures[C04,C05] r0.link == link && dom(parent.children, name) && parent.children[name] is *symlinkNode && parent.children[name].(*symlinkNode) == r0
+
+// ---- memfs_internal.go: the path walk (C01, C03, C04, C05, C07, C11) ---------------------------
+
+// lexical function of the path and the current directory (the generic path code is C13's subject)
+//@ func (*MemFS).Abs
+//@   trusted
+//@   modifies nothing
+
+//@ type dirNode
+//@   guarded_by mu: children
+
+// The error table distinguishes "found" from every other outcome (true for both OS tables).
+//@ pred errsOK(v *MemFS) := v.err.FileExists != nil && v.err.NoSuchDir != nil && v.err.NoSuchFile != nil && v.err.NotADirectory != nil && v.err.PermDenied != nil && v.err.TooManySymlinks != nil && v.err.FileExists != v.err.NoSuchDir && v.err.FileExists != v.err.NoSuchFile && v.err.FileExists != v.err.NotADirectory && v.err.FileExists != v.err.PermDenied && v.err.FileExists != v.err.TooManySymlinks
+
+//@ func (*MemFS).searchNode
+//@   requires errsOK(vfs)
+//@   ensures[C01,C05,C07] pi != nil && err != nil
+//@   ensures[C01,C05,C07] err == vfs.err.FileExists ==> parent != nil && child != nil
+//@   ensures[C01,C05,C07] child != nil ==> parent != nil
+//@   ensures[C01,C05,C07] child == nil ==> err == vfs.err.NoSuchDir || err == vfs.err.NoSuchFile
+//@   ensures[C01,C05] child == nil && parent != nil ==> piOnPart(pi) && !dom(parent.children, substr(pi.path, pi.start, pi.end)) || parent.children[substr(pi.path, pi.start, pi.end)] == nil
+//@   ensures[C01,C05] child == nil && parent != nil ==> (err == vfs.err.NoSuchFile <==> pi.end == len(pi.path)) || vfs.err.NoSuchFile == vfs.err.NoSuchDir
+//@   ensures[C04] err == vfs.err.FileExists && child is *symlinkNode ==> slMode == slmLstat
+//@   ensures[C11] pi.vfs == vfs
+//@   loop 0 invariant parent != nil
+//@   loop 0 invariant fresh(pi) && pi.vfs == vfs
+//@   loop 0 invariant pi.end >= pi.volumeNameLen && 0 <= pi.volumeNameLen && pi.volumeNameLen <= 281474976710656
+//@   loop 0 invariant pi.end <= 281474976710657
+//@   loop 0 invariant 0 <= slCount && slCount <= slCountMax
+//@   modifies nothing
